@@ -146,37 +146,43 @@ Definition w0 : world := W 0 0 0 0 None.
 (* the pickled db: version, options id, the compiled model (identified by the source snapshot it was
    compiled from) and a payload standing for the serialized CasADi functions *)
 Definition db_of (vr o s : nat) : pv := PList [PInt vr; PInt o; PInt s; PBytes [s; o; 7]].
-Definition decode_db (v : pv) : option (nat * nat * nat) :=
-  match v with
-  | PList [PInt vr; PInt o; PInt s; PBytes _] => Some (vr, o, s)
-  | _ => None
-  end.
-
 (* a compiled model is identified by (source snapshot, options) *)
 Definition modelid : Type := nat * nat.
+(* header fields (version, options) are what load_model checks; the model it returns is made of the
+   pickled functions = the payload bytes *)
+Definition decode_db (v : pv) : option (nat * nat * modelid) :=
+  match v with
+  | PList [PInt vr; PInt o; PInt _; PBytes [sp; op; _]] => Some (vr, o, (sp, op))
+  | _ => None
+  end.
 
 (* load_model; eofx = which class pickle.load raises when it runs out of input: true = EOFError
    (offset 0 / a frame boundary), false = UnpicklingError "pickle data was truncated" (inside a
    frame); observed per case by the harness *)
 Definition eof_exc (b : bool) : exc := if b then EOFError else UnpicklingError.
-Definition load_model (t : tables) (w : world) (o : nat) (eofx : bool) : exc + modelid :=
+(* badx = the class pickle.load raises on a stream that is not a prefix of a valid one (a zero byte
+   where an opcode is expected gives UnpicklingError "invalid load key"; a splice of two different
+   streams can give any class) *)
+Definition load_gen (t : tables) (w : world) (o : nat) (eofx : bool) (badx : exc) : exc + modelid :=
   match cfile w with
   | None => inl FileNotFoundError                                  (* api.py:311 getmtime *)
   | Some (bs, mt) =>
       if mt <? smt w then inl InvalidCacheError                    (* api.py:316-317 *)
       else match decode bs with                                    (* api.py:325 *)
            | EOF => inl (load_route t (eof_exc eofx))
-           | Bad => inl (load_route t UnpicklingError)
+           | Bad => inl (load_route t badx)
            | Value v _ =>
                match decode_db v with
                | None => inl OtherError
-               | Some (vr, o', s) =>
+               | Some (vr, o', m) =>
                    if negb (vr =? ver w) then inl InvalidCacheError      (* api.py:335 *)
                    else if negb (o' =? o) then inl InvalidCacheError     (* api.py:345 *)
-                   else inr (s, o')
+                   else inr m
                end
            end
   end.
+Definition load_model (t : tables) (w : world) (o : nat) (eofx : bool) : exc + modelid :=
+  load_gen t w o eofx UnpicklingError.
 
 (* save_model in cache mode = [create/truncate] ++ one step per byte (api.py:218, 291).
    State after the first j steps: *)
@@ -280,6 +286,116 @@ Fixpoint run_ops (t : tables) (w : world) (h : list op) : list (list outcome) :=
   end.
 
 (* ------------------------------------------------------------------ *)
+(* Part 3: two writers on one file, byte level (POSIX: open "wb" truncates; every writer has   *)
+(* its own offset; a write beyond the end zero-fills the gap)                                  *)
+(* ------------------------------------------------------------------ *)
+Definition write_at (f : list byte) (off : nat) (c : list byte) : list byte :=
+  match c with
+  | [] => f                                            (* a zero-length write does nothing *)
+  | _ => firstn off f ++ repeat 0 (off - length f) ++ c ++ skipn (off + length c) f
+  end.
+
+Inductive ev := OpenA | OpenB | WriteA (n : nat) | WriteB (n : nat).   (* Write n: the next n bytes *)
+Record ov := Ov { ofile : option (list byte); offA : nat; offB : nat; opA : bool; opB : bool }.
+Definition ov0 (f : option (list byte)) : ov := Ov f 0 0 false false.
+
+Definition chunk (s : list byte) (off n : nat) : list byte := firstn n (skipn off s).
+
+Definition ov_step (sA sB : list byte) (x : ov) (e : ev) : ov :=
+  match e with
+  | OpenA => Ov (Some []) 0 (offB x) true (opB x)
+  | OpenB => Ov (Some []) (offA x) 0 (opA x) true
+  | WriteA n =>
+      if opA x then let c := chunk sA (offA x) n in
+        Ov (option_map (fun f => write_at f (offA x) c) (ofile x)) (offA x + length c) (offB x) (opA x) (opB x)
+      else x
+  | WriteB n =>
+      if opB x then let c := chunk sB (offB x) n in
+        Ov (option_map (fun f => write_at f (offB x) c) (ofile x)) (offA x) (offB x + length c) (opA x) (opB x)
+      else x
+  end.
+Definition ov_run (sA sB : list byte) (x : ov) (evs : list ev) : ov := fold_left (ov_step sA sB) evs x.
+
+(* the world a third caller sees while the two writers (options oa, ob; both compiled the current
+   sources) are at the point reached by evs *)
+Definition stream (w : world) (o : nat) : list byte := dump (db_of (ver w) o (src w)).
+Definition ov_world (w : world) (oa ob : nat) (evs : list ev) : world :=
+  let x := ov_run (stream w oa) (stream w ob) (ov0 (option_map fst (cfile w))) evs in
+  if opA x || opB x then set_cfile w (option_map (fun f => (f, clock w)) (ofile x)) else w.
+
+(* every write call delivers the writer's whole stream (true of pickle.dump into a buffered file while
+   the pickle fits one frame, < 64 KiB; checked on the real code by tie W) *)
+Definition whole (sA sB : list byte) (e : ev) : bool :=
+  match e with WriteA n => length sA <=? n | WriteB n => length sB <=? n | _ => true end.
+
+(* the state of the decoder after a whole prefix (None: it stopped or failed earlier) *)
+Fixpoint feed (s : st) (inp : list byte) : option st :=
+  match inp with
+  | [] => Some s
+  | b :: r => match step s b with More s' => feed s' r | _ => None end
+  end.
+Definition boundary (s : list byte) (p : nat) : bool :=
+  match feed init (firstn p s) with Some s' => match md s' with MOp => true | _ => false end | None => false end.
+
+(* ------------------------------------------------------------------ *)
+(* Part 4: codegen mode.  save_model = [remove cache file (since ee3ded2)] ++ four shared libraries   *)
+(* (overwritten in place, api.py:211-212) ++ [create/truncate] ++ bytes.  The cache file only holds   *)
+(* the library paths: the model that load_model returns is whatever the four libraries are.           *)
+(* ------------------------------------------------------------------ *)
+Record cworld := CW { base : world; libs : list (option modelid) }.
+Definition cw0 : cworld := CW w0 [None; None; None; None].
+
+Fixpoint set_nth {A} (l : list A) (i : nat) (x : A) : list A :=
+  match l, i with
+  | [], _ => []
+  | _ :: r, 0 => x :: r
+  | y :: r, S k => y :: set_nth r k x
+  end.
+
+(* state after the first j steps of save_model(options o); remove_first = the order since ee3ded2 *)
+Definition cg_partial (remove_first : bool) (c : cworld) (o : nat) (j : nat) : cworld :=
+  let w := base c in
+  let m := (src w, o) in
+  let j' := if remove_first then j else S j in        (* old order: as if step 0 had been skipped *)
+  match j' with
+  | 0 => c
+  | S k =>
+      let w1 := if remove_first then set_cfile w None else w in
+      let nl := Nat.min k 4 in
+      let ls := fold_left (fun l i => set_nth l i (Some m)) (seq 0 nl) (libs c) in
+      if k <=? 4 then CW w1 ls
+      else CW (partial_write w1 o (k - 4)) ls
+  end.
+Definition cg_nsteps (remove_first : bool) (w : world) (o : nat) : nat :=
+  (if remove_first then 1 else 0) + 4 + nsteps w o.
+
+Inductive cmodel := CModel (ls : list (option modelid)).
+Inductive coutcome := CLoaded (ls : list (option modelid)) | CRecompiled (m : modelid) | CRaised (e : exc) | CDied.
+
+Definition cg_transfer_cut (rf : bool) (t : tables) (c : cworld) (o : nat) (e : bool) (j : nat) : cworld * coutcome :=
+  match load_model t (base c) o e with
+  | inr _ => (c, CLoaded (libs c))                      (* ca.external(path) for each function, api.py:354-357 *)
+  | inl x =>
+      if transfer_recompiles t x then
+        if j <? cg_nsteps rf (base c) o then (cg_partial rf c o j, CDied)
+        else (cg_partial rf c o (cg_nsteps rf (base c) o), CRecompiled (src (base c), o))
+      else (c, CRaised x)
+  end.
+
+Inductive cop := CEdit | CBump | CTransfer (o : nat) (e : bool) | CCrashT (o : nat) (e : bool) (j : nat).
+Definition cg_step (rf : bool) (t : tables) (c : cworld) (p : cop) : cworld * list coutcome :=
+  match p with
+  | CEdit => (CW (fst (step_op t (base c) Edit)) (libs c), [])
+  | CBump => (CW (fst (step_op t (base c) Bump)) (libs c), [])
+  | CTransfer o e => let (c', r) := cg_transfer_cut rf t c o e (cg_nsteps rf (base c) o) in (c', [r])
+  | CCrashT o e j => let (c', r) := cg_transfer_cut rf t c o e j in (c', [r])
+  end.
+Fixpoint cg_run (rf : bool) (t : tables) (c : cworld) (h : list cop) : list (list coutcome) :=
+  match h with
+  | [] => []
+  | p :: h' => let (c', r) := cg_step rf t c p in r :: cg_run rf t c' h'
+  end.
+(* ------------------------------------------------------------------ *)
 (* correspondence: observed outcome classes of the real transfer_model *)
 (* ------------------------------------------------------------------ *)
 Inductive obs := OLoaded | ORecompiled | ORaised | ODied.
@@ -301,6 +417,13 @@ Fixpoint list_eqb {A} (f : A -> A -> bool) (a b : list A) : bool :=
 Definition check_case (t : tables) (c : list op * list (list obs)) : bool :=
   let '(h, o) := c in
   list_eqb (list_eqb obs_eqb) (map (map obs_of) (run_ops t w0 h)) o.
+
+Definition cobs_of (r : coutcome) : obs :=
+  match r with CLoaded _ => OLoaded | CRecompiled _ => ORecompiled | CRaised _ => ORaised | CDied => ODied end.
+(* codegen correspondence: history + observed classes + whether every Loaded model was right *)
+Definition check_cg_case (rf : bool) (t : tables) (c : list cop * list (list obs)) : bool :=
+  let '(h, o) := c in
+  list_eqb (list_eqb obs_eqb) (map (map cobs_of) (cg_run rf t cw0 h)) o.
 
 (* the routing tables of the repaired code and of the code before cb129b2 (used by Props examples) *)
 Definition tbl_fixed : tables :=
